@@ -752,3 +752,35 @@ func tagStoresFromRegistration(c *Ctx, p *Prog) {
 	}
 	r.Check(len(probs) == 0, "R17.6", "register:tag-source", p.FuncPos(rl), "only the tags given with the registration are stored, each under its own width index", strings.Join(dedupStr(probs), "; "))
 }
+
+// ---- pooled objects start on memory of their own (C08 R08.3, C09) ------------------------------------------------------------
+
+func pooledObjectsFresh(c *Ctx, p *Prog, rule string) {
+	r := c.R
+	te := newTermEval(p)
+	n := 0
+	for _, fn := range p.RepoFuncs() {
+		if fn.Pkg != p.Slog && fn.Parent() == nil {
+			continue
+		}
+		for _, fs := range fieldStores(fn) {
+			if fs.Struct != "PrintCtx" || fs.Kind != "store" || fs.Val == nil {
+				continue
+			}
+			if _, fresh := fs.Base.(*ssa.Alloc); !fresh {
+				continue
+			}
+			if _, isSlice := fs.Val.Type().Underlying().(*types.Slice); !isSlice {
+				continue
+			}
+			n++
+			t := te.eval(fs.Val, nil)
+			shared := t.contains(func(x *Term) bool { return x.Op == "global" })
+			key := "fresh-buffer:" + shortName(fn) + ":" + fs.Field
+			r.Check(!shared, rule, key, p.Pos(instrPos(fs.Instr)), "a new formatting context starts on a buffer of its own", "a new formatting context is given a window of package-level storage ("+t.String()+") as its "+fs.Field+": two contexts in use at the same time can write the same bytes (and growing one runs into its neighbour)")
+		}
+	}
+	if n == 0 {
+		r.OkTrivial(rule, "fresh-buffer:none", "-", "no slice field is initialised when a formatting context is created (zero value)")
+	}
+}
